@@ -45,7 +45,7 @@ ASSUMPTIONS = ["observables are returned arrays, frame attributes, RAW file byte
                "programs never rely on OS entropy: an unseeded draw that changes an observable is reported with its call site"]
 PROBES = ["twin_frame_compared", "twin_raw_compared", "history_compared", "reuse_compared", "user_dict_compared",
           "copy_of_load_fil", "copy_of_sizes", "record_default_header", "record_shared_header", "aborted_recording_in_history",
-          "array_then_single", "from_data_seeded_estimate", "copy_of_load_h5", "copy_of_derived", "hashseed_program_compared"]
+          "array_then_single", "from_data_seeded_estimate", "copy_of_load_h5", "copy_of_derived", "hashseed_program_compared", "near_twin_prefix"]
 
 SEAM_KEYS = {"clock": ["clock_origin", "clock_jitter_seed"], "entropy": ["entropy_salt"], "listing": ["listing"], "scratch": ["scratch"]}
 
@@ -185,6 +185,35 @@ def gen_raw_program(rng, tier, ids_from=0, stem_prefix="r", with_fault=False, fr
     return prog, (ant, el, be)
 
 
+def near_twin(rng, R):
+    T = copy.deepcopy(R)
+    what = rng.choice(["window", "seed", "resolution", "source_name", "nothing"])
+    for o in T:
+        for k in ("id", "new", "load_as", "src", "dst"):
+            if k in o and o[k] is not None:
+                o[k] += 300
+        if "ids" in o:
+            o["ids"] = [i + 300 for i in o["ids"]]
+        for k in ("stem", "in_stem"):
+            if k in o:
+                o[k] = "nt_" + o[k]
+        if o["op"] == "r_record" and o["header"].get("kind") == "shared":
+            o["header"]["name"] = "nt_" + o["header"]["name"]
+        if "el" in o and what == "window":
+            o["el"]["window"] = {"hamming": "hann", "hann": "blackman", "blackman": "boxcar", "boxcar": "hamming"}[o["el"]["window"]]
+        if "ant" in o and what == "seed":
+            o["ant"]["seed"] = (o["ant"]["seed"] + 1) % (1 << 30)
+        if o["op"] == "f_create":
+            sp = o["spec"]
+            if what == "resolution":
+                sp["geom"]["dt"] = sp["geom"]["dt"] * 2.0
+            elif what == "source_name":
+                sp["source_name"] = "NEAR_TWIN"
+            elif what == "seed":
+                sp["seed"] = (sp["seed"] + 1) % (1 << 30)
+    return T
+
+
 def generate(rng, tier):
     mode = rng.choice(["twin_frame", "twin_frame", "twin_raw", "twin_raw", "history", "history", "history", "reuse", "user_dict"])
     sc = {"mode": mode, "return_events": False,
@@ -227,6 +256,12 @@ def generate(rng, tier):
                         o[k] += 100
                 if "ids" in o:
                     o["ids"] = [i + 100 for i in o["ids"]]
+        if rng.random() < 0.4:
+            # near-twin prefix: the target program itself, run earlier in the same process on its own objects with ONE
+            # environmental parameter changed (window, seed, resolution, source name).  Anything memoised in process-global
+            # state under too coarse a key is then handed to the target.
+            H = H + near_twin(rng, R)
+            sc["near_twin_prefix"] = True
         sc["ops"] = H
         sc["target"] = R
     elif mode == "reuse":
@@ -484,6 +519,8 @@ def execute(sc, ctx):
             ctx.violations.append(dict(hv[0]))
             return
         ctx.hit("history_compared")
+        if sc.get("near_twin_prefix"):
+            ctx.hit("near_twin_prefix")
         kinds = [o["op"] + (":" + o["header"]["kind"] if o["op"] == "r_record" else "") for o in H]
         if any(o["op"] == "r_build" and o["ant"]["kind"] == "array" for o in H) and any(
                 o["op"] == "r_build" and o["ant"]["kind"] == "single" for o in R):
